@@ -51,4 +51,11 @@ theorem src :
     Gen.Pow.src_v2_stateToInt = Expect.Pow_src_v2_stateToInt :=
   ⟨rfl, rfl, rfl, rfl, rfl, rfl, rfl, rfl, rfl, rfl, rfl, rfl, rfl, rfl, rfl, rfl, rfl, rfl, rfl, rfl⟩
 
+/-- everything else the package declares (imports, constants, types, variables, build constraints and the functions not
+pinned one by one) is unchanged too: no declaration of the modelled packages can change without a tie theorem failing. -/
+theorem rest :
+    Gen.Pow.rest_pow = Expect.Pow_rest_pow ∧
+    Gen.Pow.rest_powv2 = Expect.Pow_rest_powv2 :=
+  ⟨rfl, rfl⟩
+
 end Iota.Tie.Pow
